@@ -1,5 +1,7 @@
 (* Property C17 — enum columns keep their declared value set and order. *)
-From QF Require Import Base.Prelude Gen.GenConsts Model.Bits Model.Frame Model.Filter Model.Ops Proofs.BitsProofs Proofs.EnumProofs.
+From QF Require Import Base.Prelude Gen.GenConsts Model.Bits Model.Frame Model.Kernel Model.Filter Model.FilterSpec Model.Ops.
+From QF Require Import Model.Sort Corr.SortCorr Model.CsvSpec Model.CsvRead.
+From QF Require Import Proofs.BitsProofs Proofs.FilterProofs Proofs.EnumProofs Proofs.SortProofs Proofs.EnumOrderProofs.
 Local Open Scope nat_scope.
 
 (* whatever the enum factory accepts is read back exactly — every string as itself, null as null (never as a value,
@@ -59,3 +61,518 @@ Example C17_cardinality_limit :
   (exists d vals, enum_new (map (fun k => Some [N.of_nat k]) (seq 0 255)) [] = Ok (ECol d vals false) /\ length vals = 255)
   /\ enum_new (map (fun k => Some [N.of_nat k]) (seq 0 256)) [] = Fail.
 Proof. split; [eexists; eexists; split; [vm_compute; reflexivity|reflexivity]|vm_compute; reflexivity]. Qed.
+
+(* ====================================================================================================
+   Second part: what filters, Sort and the readers do with an enum column (Proofs/EnumOrderProofs.v).
+
+   Vocabulary.  [index_of s vals] is the DECLARED POSITION of s (C17_position: with a duplicate-free table it is
+   the only p with vals[p] = s).  [mask_or b m] (Proofs/FilterProofs.v) is the shared filter mask afterwards: a row
+   that matched before stays, every other row k gets m[k].  A declaration is duplicate-free in all theorems below
+   (NoDup values; the derived case values = [] is included) — with a value declared twice the factory stores the
+   LAST position and the filter looks up the FIRST one, see the report. *)
+
+Theorem C17_position (l : list bytes) s p : NoDup l -> (index_of s l = Some p <-> nth_error l p = Some s).
+Proof. exact (index_of_spec l s p). Qed.
+Print Assumptions C17_position.
+
+(* the value table the factory returns is duplicate-free (so that "the position" makes sense), also when derived *)
+Theorem C17_table_nodup data values d vals strict :
+  NoDup values -> enum_new data values = Ok (ECol d vals strict) -> NoDup vals.
+Proof. exact (enum_new_nodup data values d vals strict). Qed.
+Print Assumptions C17_table_nodup.
+
+(* <, <=, >, >=, =, != against a declared constant (the generated kernels k_e_lt ... k_e_neq run by e_filter_builtin):
+   a row matches iff the declared position of its value compares accordingly with the position pc of the
+   constant; a null row matches only != .  [enum_row_sat] is that sentence as a function of the cell. *)
+Definition C17_filter_order_statement : Prop :=
+  forall mt data values d vals strict cmp op s pc index b,
+  enum_new data values = Ok (ECol d vals strict) -> NoDup values ->
+  cop_of cmp = Some op -> nth_error vals pc = Some s ->
+  length index = length b -> Forall (fun p => p < length data) index ->
+  e_filter_builtin mt d vals strict index cmp (RConst (AStr s)) b
+  = Ok (mask_or b (map (fun p =>
+          match nth p data None with
+          | None => match op with ONe => true | _ => false end
+          | Some v => match index_of v vals with
+                      | Some pv => ord_sat op (Nat.compare pv pc)
+                      | None => false
+                      end
+          end) index)).
+Theorem C17_filter_order : C17_filter_order_statement.
+Proof. exact enum_filter_order. Qed.
+Print Assumptions C17_filter_order.
+
+(* filtering against an undeclared constant: an error for every comparison operator when the values were
+   declared; for a derived enum no row (every row for !=).  Holds for ANY enum column, not only factory-built. *)
+Theorem C17_filter_undeclared mt d vals strict cmp op s index b :
+  cop_of cmp = Some op -> ~ In s vals ->
+  e_filter_builtin mt d vals strict index cmp (RConst (AStr s)) b
+  = if strict then Fail
+    else Ok (if match op with ONe => true | _ => false end then map (fun _ => true) b else b).
+Proof. exact (enum_filter_undeclared mt d vals strict cmp op s index b). Qed.
+Print Assumptions C17_filter_undeclared.
+
+(* the comparator names the two theorems quantify over are exactly "<", "<=", ">", ">=", "=", "!=" *)
+Theorem C17_operators :
+  map cop_of [bs 1 0x3c; bs 2 0x3c3d; bs 1 0x3e; bs 2 0x3e3d; bs 1 0x3d; bs 2 0x213d]%N
+  = [Some OLt; Some OLe; Some OGt; Some OGe; Some OEq; Some ONe]
+  /\ forall cmp op, cop_of cmp = Some op -> cmp = cop_name op.
+Proof. exact (conj eq_refl cop_of_inv). Qed.
+Print Assumptions C17_operators.
+
+(* the 256-bit set behind in / like / ilike: for EVERY uint8 rank r, isSet answers pred (values[r]) — false
+   beyond the table; general proof over the four words (covers 63/64, 127/128, 191/192) *)
+Theorem C17_bitset (values : list bytes) (pred : bytes -> bool) (r : N) :
+  length values <= 256 ->
+  bitset_isset (bitset_of values pred) r
+  = match nth_error values (N.to_nat r) with Some v => pred v | None => false end.
+Proof. exact (bitset_of_spec values pred r). Qed.
+Print Assumptions C17_bitset.
+
+(* set adds exactly one member to any four-word set *)
+Theorem C17_bitset_set (s : bitset) (v r : N) : length s = 4 -> (v < 256)%N ->
+  bitset_isset (bitset_set s v) r = (v =? r)%N || bitset_isset s r.
+Proof. exact (isset_set s v r). Qed.
+Print Assumptions C17_bitset_set.
+
+(* the null rank is never in the set *)
+Theorem C17_bitset_null (values : list bytes) (pred : bytes -> bool) :
+  length values <= 255 -> bitset_isset (bitset_of values pred) c_nullValue = false.
+Proof. exact (bitset_of_null values pred). Qed.
+Print Assumptions C17_bitset_null.
+
+(* "in": the rows whose value is one of the listed strings; null rows never; undeclared strings in the list are
+   not an error (as in the Go code) *)
+Theorem C17_filter_in mt data values d vals strict l index b :
+  enum_new data values = Ok (ECol d vals strict) -> NoDup values ->
+  length index = length b -> Forall (fun p => p < length data) index ->
+  e_filter_builtin mt d vals strict index (bs 2 0x696e) (RConst (AStrs l)) b
+  = Ok (mask_or b (map (fun p => match nth p data None with
+                                 | None => false
+                                 | Some v => existsb (bytes_eqb v) l
+                                 end) index)).
+Proof. exact (enum_filter_in mt data values d vals strict l index b). Qed.
+Print Assumptions C17_filter_in.
+
+(* like (cs = true) / ilike (cs = false): the rows whose value the matcher of the case accepts; null rows never;
+   a pattern that does not compile is an error.  (The matcher is an oracle table of the case: [find_matcher];
+   a pattern the case did not record shows as Panic.) *)
+Theorem C17_filter_like mt data values d vals strict (cs : bool) pat index b :
+  enum_new data values = Ok (ECol d vals strict) -> NoDup values ->
+  length index = length b -> Forall (fun p => p < length data) index ->
+  e_filter_builtin mt d vals strict index (if cs then bs 4 0x6c696b65 else bs 5 0x696c696b65) (RConst (AStr pat)) b
+  = match find_matcher mt pat cs with
+    | Some (Some m) => Ok (mask_or b (map (fun p => match nth p data None with None => false | Some v => m v end) index))
+    | Some None => Fail
+    | None => Panic
+    end.
+Proof. exact (enum_filter_like mt data values d vals strict cs pat index b). Qed.
+Print Assumptions C17_filter_like.
+
+(* Sort: the Compare of an enum column — [key_compare] on the KEnum key of the sorter model (Corr/SortCorr.v), fed
+   with the ranks of the column — answers LessThan / GreaterThan / tie exactly as the declared positions say:
+   null before every value (after, with NullLast), two nulls tie, Reverse inverts the complete order; and
+   Sorter.Less with this single key is that order. *)
+Definition C17_sort_order_statement : Prop :=
+  forall data values d vals strict,
+  enum_new data values = Ok (ECol d vals strict) -> NoDup values ->
+  forall (rev nl : bool) i j, i < length data -> j < length data ->
+    let pos (c : option bytes) : option nat := match c with None => None | Some v => index_of v vals end in
+    let lt (x y : option nat) : bool := match x, y with
+                  | None, None => false
+                  | None, Some _ => negb nl
+                  | Some _, None => nl
+                  | Some p, Some q => p <? q
+                  end in
+    let before (a b : option bytes) : bool := if rev then lt (pos b) (pos a) else lt (pos a) (pos b) in
+    let a := nth i data None in let b := nth j data None in
+    SortProofs.cmp3 (key_compare (enum_sort_key d, (rev, nl)) i j)
+    = (if before a b then Lt else if before b a then Gt else Eq)
+    /\ model_lt [(enum_sort_key d, (rev, nl))] i j = before a b.
+Theorem C17_sort_order : C17_sort_order_statement.
+Proof. exact enum_compare_order. Qed.
+Print Assumptions C17_sort_order.
+
+(* the key the sort engine computes from the strings (position in the declared values, None for null) is this key *)
+Theorem C17_sort_key data values d vals strict :
+  enum_new data values = Ok (ECol d vals strict) -> NoDup values ->
+  KEnum (map (fun c => match c with None => None | Some s => find_value_last vals s end) data)
+  = KEnum (map (fun r => if enum_is_null r then None else Some r) d).
+Proof. exact (enum_key_of_ranks data values d vals strict). Qed.
+Print Assumptions C17_sort_key.
+
+(* ReadCSV, enum branch of columnToData: what it accepts are the cells that were read — a non-empty cell as itself,
+   the empty cell as the VALUE "" unless EmptyNull is set (then null) —, at most 255 values, with declared values
+   exactly the declared table *)
+Theorem C17_csv_decode pi pf pb e ev cells c :
+  column_to_data pi pf pb e DEnum ev cells = Ok c ->
+  exists vals, c = ColEnum vals (map (fun x => if is_nilb x && e then None else Some x) cells)
+    /\ length vals <= 255 /\ (exists ext, vals = declared ev ++ ext) /\ (declared ev <> [] -> vals = declared ev).
+Proof. exact (csv_enum_decode pi pf pb e ev cells c). Qed.
+Print Assumptions C17_csv_decode.
+
+(* ... and with declared values any cell outside them makes the read fail; the empty cell is such a cell when ""
+   is not declared and EmptyNull is off *)
+Theorem C17_csv_strict pi pf pb e ev cells c :
+  declared ev <> [] -> In c cells -> ~ In c (declared ev) -> is_nilb c && e = false ->
+  column_to_data pi pf pb e DEnum ev cells = Fail.
+Proof. exact (csv_enum_strict pi pf pb e ev cells c). Qed.
+Print Assumptions C17_csv_strict.
+
+(* New / ReadJSON (= UnmarshalJSON, then New on string pointers with JSON null = nil): the enum column is built by
+   the factory of the first part, and an undeclared value is a failure, not merely "not an enum column" *)
+Theorem C17_new_strict_fail data values b :
+  values <> [] -> In (Some b) data -> ~ In b values -> enum_new data values = Fail.
+Proof. exact (enum_new_strict_fail data values b). Qed.
+Print Assumptions C17_new_strict_fail.
+
+Theorem C17_json_strict x values b :
+  values <> [] -> In (Some b) x -> ~ In b values ->
+  create_column (DStrPtrs x) (Some values) = enum_new x values /\ create_column (DStrPtrs x) (Some values) = Fail.
+Proof. exact (fun H1 H2 H3 => conj eq_refl (json_enum_strict x values b H1 H2 H3)). Qed.
+Print Assumptions C17_json_strict.
+
+(* null stays distinct from every value, for ANY enum column: the rank 255 reads as null, any other rank never
+   reads as null, and a rank below the table length (<= 255) reads as the string at that position *)
+Theorem C17_null_distinct d vals strict k r :
+  nth_error d k = Some r ->
+  (r = 255%N -> cell_at (ECol d vals strict) k = Ok (CEnum None))
+  /\ (r <> 255%N -> forall s, cell_at (ECol d vals strict) k = Ok (CEnum s) ->
+        s = nth_error vals (N.to_nat r) /\ s <> None)
+  /\ (N.to_nat r < length vals -> length vals <= 255 ->
+        exists s, nth_error vals (N.to_nat r) = Some s /\ cell_at (ECol d vals strict) k = Ok (CEnum (Some s))).
+Proof. exact (cell_at_null_distinct d vals strict k r). Qed.
+Print Assumptions C17_null_distinct.
+
+(* ---------------------------------------------------------------------------------------------------
+   Non-vacuity of the premises above: declared order b, a, c (NOT the alphabet), data a, null, b, c, a. *)
+Definition ex_values : list bytes := [[98%N]; [97%N]; [99%N]].
+Definition ex_data : list (option bytes) := [Some [97%N]; None; Some [98%N]; Some [99%N]; Some [97%N]].
+Definition ex_d : list N := [1; 255; 0; 2; 1]%N.
+
+Example C17_ex_premises :
+  enum_new ex_data ex_values = Ok (ECol ex_d ex_values true) /\ NoDup ex_values
+  /\ cop_of (bs 1 0x3c) = Some OLt /\ nth_error ex_values 1 = Some [97%N]
+  /\ length [0; 1; 2; 3; 4] = length [false; false; false; false; false]
+  /\ Forall (fun p => p < length ex_data) [0; 1; 2; 3; 4]
+  /\ ~ In [100%N] ex_values /\ ex_values <> [].
+Proof.
+  split; [vm_compute; reflexivity|]. split; [repeat constructor; cbn; intuition discriminate|].
+  split; [reflexivity|]. split; [reflexivity|]. split; [reflexivity|].
+  split; [repeat constructor|]. split; [cbn; intuition discriminate|discriminate].
+Qed.
+
+(* "< a" keeps the b row only (b is declared before a), "!= a" keeps null, b, c; an undeclared constant is an error *)
+Example C17_ex_filter :
+  e_filter_builtin [] ex_d ex_values true [0; 1; 2; 3; 4] (bs 1 0x3c) (RConst (AStr [97%N])) [false; false; false; false; false]
+  = Ok [false; false; true; false; false]
+  /\ e_filter_builtin [] ex_d ex_values true [0; 1; 2; 3; 4] (bs 2 0x213d) (RConst (AStr [97%N])) [false; false; false; false; false]
+  = Ok [false; true; true; true; false]
+  /\ e_filter_builtin [] ex_d ex_values true [0; 1; 2; 3; 4] (bs 1 0x3c) (RConst (AStr [100%N])) [false; false; false; false; false]
+  = Fail
+  /\ e_filter_builtin [] ex_d ex_values true [0; 1; 2; 3; 4] (bs 2 0x696e) (RConst (AStrs [[99%N]; [100%N]])) [false; false; false; false; false]
+  = Ok [false; false; false; true; false].
+Proof. repeat split; vm_compute; reflexivity. Qed.
+
+(* Sort: row 2 (b) before row 0 (a); null (row 1) first, last with NullLast; Reverse inverts *)
+Example C17_ex_sort :
+  map (fun '(rev, nl, i, j) => model_lt [(enum_sort_key ex_d, (rev, nl))] i j)
+      [(false, false, 2, 0); (false, false, 0, 2); (false, false, 1, 2); (false, true, 1, 2); (true, false, 0, 2);
+       (true, false, 1, 2); (false, false, 0, 4)]
+  = [true; false; true; false; true; false; false].
+Proof. vm_compute. reflexivity. Qed.
+
+(* bitset at the word boundaries: 255 values, the predicate holds for the values at 63, 64, 127, 128, 191, 192, 254 *)
+Example C17_ex_bitset :
+  let values := map (fun k => [N.of_nat k]) (seq 0 255) in
+  let pred := fun v : bytes => existsb (bytes_eqb v) [[63]; [64]; [127]; [128]; [191]; [192]; [254]]%N in
+  length values <= 255
+  /\ map (bitset_isset (bitset_of values pred)) [0; 62; 63; 64; 65; 126; 127; 128; 129; 190; 191; 192; 193; 253; 254; 255]%N
+     = [false; false; true; true; false; false; true; true; false; false; true; true; false; false; true; false].
+Proof. split; [vm_compute; lia|vm_compute; reflexivity]. Qed.
+
+(* ReadCSV: declared b, a; cells a, "", b.  EmptyNull off: "" is an undeclared VALUE => failure; EmptyNull on: null *)
+Example C17_ex_csv :
+  let no {A} := fun _ : bytes => @None A in
+  column_to_data no no no false DEnum (Some [[98%N]; [97%N]]) [[97%N]; []; [98%N]] = Fail
+  /\ column_to_data no no no true DEnum (Some [[98%N]; [97%N]]) [[97%N]; []; [98%N]]
+     = Ok (ColEnum [[98%N]; [97%N]] [Some [97%N]; None; Some [98%N]])
+  /\ column_to_data no no no false DEnum (Some [[98%N]; []]) [[]; [98%N]] = Ok (ColEnum [[98%N]; []] [Some []; Some [98%N]])
+  /\ declared (Some [[98%N]; [97%N]]) <> [] /\ In [] [[97%N]; []; [98%N]] /\ ~ In [] (declared (Some [[98%N]; [97%N]]))
+  /\ is_nilb (@nil N) && false = false.
+Proof.
+  cbv zeta. repeat split; try (vm_compute; reflexivity); try discriminate.
+  - right; left; reflexivity.
+  - cbn; intuition discriminate.
+Qed.
+
+Example C17_ex_json :
+  create_column (DStrPtrs [Some [97%N]; None; Some [100%N]]) (Some ex_values) = Fail
+  /\ In (Some [100%N]) [Some [97%N]; None; Some [100%N]].
+Proof. split; [vm_compute; reflexivity|right; right; left; reflexivity]. Qed.
+
+Example C17_ex_null_distinct :
+  nth_error ex_d 1 = Some 255%N /\ nth_error ex_d 2 = Some 0%N /\ N.to_nat 0 < length ex_values /\ length ex_values <= 255.
+Proof. repeat split; cbn; lia. Qed.
+
+(* ====================================================================================================
+   Third part: the cardinality limit for every data, and the statements above at the level of whole frames. *)
+
+(* the factory never panics: it fails or returns an enum column *)
+Theorem C17_factory_total data values :
+  enum_new data values = Fail \/ exists d vals strict, enum_new data values = Ok (ECol d vals strict).
+Proof. exact (enum_new_cases data values). Qed.
+Print Assumptions C17_factory_total.
+
+(* more than 255 distinct strings among data and declared values => clean failure (l is any duplicate-free
+   witness list of such strings) *)
+Theorem C17_overflow data values (l : list bytes) :
+  NoDup l -> 255 < length l -> (forall s, In s l -> In (Some s) data \/ In s values) ->
+  enum_new data values = Fail.
+Proof. exact (enum_new_overflow data values l). Qed.
+Print Assumptions C17_overflow.
+
+(* QFrame.Filter with one comparison leaf on an enum column of the frame: exactly the rows of the index whose cell
+   compares by declared position, in index order *)
+Theorem C17_frame_filter_order mt (f : Frame.frame) col data values d vals strict cmp op s pc :
+  ferr f = false -> lookup_col f col = Some (ECol d vals strict) ->
+  enum_new data values = Ok (ECol d vals strict) -> NoDup values ->
+  cop_of cmp = Some op -> nth_error vals pc = Some s ->
+  Forall (fun p => p < length data) (ix f) ->
+  frame_filter mt f (CLeaf (mkLeaf col (CmpName cmp) (AStr s) false))
+  = Ok (with_ix f (filter (fun p =>
+          match nth p data None with
+          | None => match op with ONe => true | _ => false end
+          | Some v => match index_of v vals with
+                      | Some pv => ord_sat op (Nat.compare pv pc)
+                      | None => false
+                      end
+          end) (ix f))).
+Proof. exact (enum_frame_filter_order mt f col data values d vals strict cmp op s pc). Qed.
+Print Assumptions C17_frame_filter_order.
+
+(* ... and with declared values an undeclared constant sets Err, for each of the six operators *)
+Theorem C17_frame_filter_undeclared mt (f : Frame.frame) col d vals cmp op s :
+  ferr f = false -> lookup_col f col = Some (ECol d vals true) ->
+  cop_of cmp = Some op -> ~ In s vals ->
+  frame_filter mt f (CLeaf (mkLeaf col (CmpName cmp) (AStr s) false)) = Ok (with_err f).
+Proof. exact (enum_frame_filter_undeclared mt f col d vals cmp op s). Qed.
+Print Assumptions C17_frame_filter_undeclared.
+
+Theorem C17_frame_filter_in mt (f : Frame.frame) col data values d vals strict l :
+  ferr f = false -> lookup_col f col = Some (ECol d vals strict) ->
+  enum_new data values = Ok (ECol d vals strict) -> NoDup values ->
+  Forall (fun p => p < length data) (ix f) ->
+  frame_filter mt f (CLeaf (mkLeaf col (CmpName (bs 2 0x696e)) (AStrs l) false))
+  = Ok (with_ix f (filter (fun p => match nth p data None with
+                                    | None => false
+                                    | Some v => existsb (bytes_eqb v) l
+                                    end) (ix f))).
+Proof. exact (enum_frame_filter_in mt f col data values d vals strict l). Qed.
+Print Assumptions C17_frame_filter_in.
+
+(* New / ReadJSON: if the data of a column listed in Enums (with declared values) holds an undeclared string,
+   every frame New returns carries an error *)
+Theorem C17_new_frame_strict data enums n x values b :
+  assocb n data = Some (DStrPtrs x) -> assocb n enums = Some values ->
+  values <> [] -> In (Some b) x -> ~ In b values ->
+  forall order (f : Frame.frame), new_frame data order enums = Ok f -> ferr f = true.
+Proof. exact (new_frame_enum_strict data enums n x values b). Qed.
+Print Assumptions C17_new_frame_strict.
+
+(* ReadCSV: the conversion loop over the columns never yields a frame when the k-th column (a name not seen before
+   it) is typed enum with declared values and has a cell outside them *)
+Theorem C17_csv_convert_strict pi pf pb conf headers cols acc k h cells values c :
+  nth_error headers k = Some h -> nth_error cols k = Some cells -> ~ In h (firstn k headers) ->
+  match assoc h (cf_types conf) with Some s => dtype_of s | None => DNone end = DEnum ->
+  assoc h (cf_enum_vals conf) = Some values ->
+  values <> [] -> In c cells -> ~ In c values -> is_nilb c && cf_empty_null conf = false ->
+  forall r, convert_cols pi pf pb conf headers cols (cf_enum_vals conf) acc <> Ok r.
+Proof. exact (csv_convert_strict pi pf pb conf headers cols acc k h cells values c). Qed.
+Print Assumptions C17_csv_convert_strict.
+
+Definition ex_frame : Frame.frame := mkFrame [([67%N], ECol ex_d ex_values true)] [4; 0; 3; 2; 1] false.
+
+Example C17_ex_frame :
+  ferr ex_frame = false /\ lookup_col ex_frame [67%N] = Some (ECol ex_d ex_values true)
+  /\ Forall (fun p => p < length ex_data) (ix ex_frame)
+  /\ frame_filter [] ex_frame (CLeaf (mkLeaf [67%N] (CmpName (bs 2 0x3c3d)) (AStr [97%N]) false)) = Ok (with_ix ex_frame [4; 0; 2])
+  /\ frame_filter [] ex_frame (CLeaf (mkLeaf [67%N] (CmpName (bs 2 0x3c3d)) (AStr [100%N]) false)) = Ok (with_err ex_frame).
+Proof.
+  split; [reflexivity|]. split; [reflexivity|]. split; [repeat constructor|]. split; vm_compute; reflexivity.
+Qed.
+
+Example C17_ex_new_frame :
+  assocb [67%N] [([67%N], DStrPtrs [Some [97%N]; Some [100%N]])] = Some (DStrPtrs [Some [97%N]; Some [100%N]])
+  /\ assocb [67%N] [([67%N], ex_values)] = Some ex_values
+  /\ new_frame [([67%N], DStrPtrs [Some [97%N]; Some [100%N]])] [] [([67%N], ex_values)] = Ok (mkFrame [] [] true)
+  /\ new_frame [([67%N], DStrPtrs [Some [97%N]; None])] [] [([67%N], ex_values)]
+     = Ok (mkFrame [([67%N], ECol [1; 255]%N ex_values true)] [0; 1] false).
+Proof. repeat split; vm_compute; reflexivity. Qed.
+
+Example C17_ex_csv_convert :
+  let no {A} := fun _ : bytes => @None A in
+  let conf := mkConf false false 44%N [([67%N], ty_enum)] [([67%N], [[98%N]; [97%N]])] 0%Z [] false [] in
+  convert_cols no no no conf [[67%N]] [[[97%N]; [100%N]]] (cf_enum_vals conf) [] = Fail
+  /\ match assoc [67%N] (cf_types conf) with Some s => dtype_of s | None => DNone end = DEnum
+  /\ assoc [67%N] (cf_enum_vals conf) = Some [[98%N]; [97%N]].
+Proof. cbv zeta. repeat split; vm_compute; reflexivity. Qed.
+
+Example C17_ex_overflow :
+  let l := map (fun k => [N.of_nat k]) (seq 0 256) in
+  255 < length l /\ enum_new (map Some l) [] = Fail.
+Proof. split; [vm_compute; lia|vm_compute; reflexivity]. Qed.
+
+(* column against column (Filter with a ColumnName argument on two enum columns): both cells non-null and the
+   declared positions compare; != also holds when one of the cells is null; enum columns over different value
+   tables (or of different physical length) cannot be compared: error *)
+Theorem C17_filter_columns mt data values d vals strict data2 values2 d2 strict2 cmp op index b :
+  enum_new data values = Ok (ECol d vals strict) -> NoDup values ->
+  enum_new data2 values2 = Ok (ECol d2 vals strict2) -> NoDup values2 ->
+  length data2 = length data -> cop_of cmp = Some op ->
+  length index = length b -> Forall (fun p => p < length data) index ->
+  e_filter_builtin mt d vals strict index cmp (RCol (ECol d2 vals strict2)) b
+  = Ok (mask_or b (map (fun p =>
+          match nth p data None, nth p data2 None with
+          | Some v, Some w =>
+              match index_of v vals, index_of w vals with
+              | Some pv, Some pw => ord_sat op (Nat.compare pv pw)
+              | _, _ => false
+              end
+          | _, _ => match op with ONe => true | _ => false end
+          end) index)).
+Proof. exact (enum_filter2_order mt data values d vals strict data2 values2 d2 strict2 cmp op index b). Qed.
+Print Assumptions C17_filter_columns.
+
+Theorem C17_filter_columns_types mt op d vals st d2 v2 st2 index b :
+  length index = length b -> Forall (fun p => p < length d) index ->
+  (vals <> v2 \/ length d <> length d2) ->
+  e_filter_builtin mt d vals st index (cop_name op) (RCol (ECol d2 v2 st2)) b = Fail.
+Proof. exact (enum_filter2_types mt op d vals st d2 v2 st2 index b). Qed.
+Print Assumptions C17_filter_columns_types.
+
+Example C17_ex_columns :
+  enum_new [Some [98%N]; Some [98%N]; None; Some [97%N]; Some [99%N]] ex_values = Ok (ECol [0; 0; 255; 1; 2]%N ex_values true)
+  /\ e_filter_builtin [] ex_d ex_values true [0; 1; 2; 3; 4] (bs 1 0x3e) (RCol (ECol [0; 0; 255; 1; 2]%N ex_values true))
+       [false; false; false; false; false] = Ok [true; false; false; true; false].
+Proof. split; vm_compute; reflexivity. Qed.
+
+(* Why NoDup: with a value declared twice the factory stores the LAST position (the Go map valToEnum is overwritten)
+   while filterBuiltIn looks up the FIRST one, so `= a` finds nothing although two cells hold a.  The model
+   reproduces the behaviour of the Go code (New(c: a,b,a; Enums c: a,b,a).Filter(c = "a") has 0 rows). *)
+Example C17_duplicate_declaration :
+  let vals := [[97%N]; [98%N]; [97%N]] in
+  enum_new [Some [97%N]; Some [98%N]; Some [97%N]] vals = Ok (ECol [2; 1; 2]%N vals true)
+  /\ e_filter_builtin [] [2; 1; 2]%N vals true [0; 1; 2] (bs 1 0x3d) (RConst (AStr [97%N])) [false; false; false]
+     = Ok [false; false; false].
+Proof. split; vm_compute; reflexivity. Qed.
+
+(* Sort() with one enum key, the whole sorter (uses C03_sort_by_keys): it answers, returns every row of the index
+   once, and no row is followed — at any distance — by a row that comes earlier in the declared order
+   (null first, last with NullLast; Reverse inverting) *)
+Theorem C17_sort_sorted data values d vals strict (rev nl : bool) ids :
+  enum_new data values = Ok (ECol d vals strict) -> NoDup values ->
+  Forall (fun p => p < length data) ids ->
+  exists out, sort_ids (model_lt [(enum_sort_key d, (rev, nl))]) ids = Ok out /\ Permutation out ids /\
+    forall i j a b, i < j -> nth_error out i = Some a -> nth_error out j = Some b ->
+      enum_lt vals rev nl (nth b data None) (nth a data None) = false.
+Proof. exact (enum_sort_sorted data values d vals strict rev nl ids). Qed.
+Print Assumptions C17_sort_sorted.
+
+Example C17_ex_sort_ids :
+  sort_ids (model_lt [(enum_sort_key ex_d, (false, false))]) [0; 1; 2; 3; 4] = Ok [1; 2; 0; 4; 3]
+  /\ sort_ids (model_lt [(enum_sort_key ex_d, (true, true))]) [0; 1; 2; 3; 4] = Ok [1; 3; 0; 4; 2].
+Proof. split; vm_compute; reflexivity. Qed.
+
+(* ReadCSV as a whole (read_rows: header handling, row loop, conversion loop, final checks; read_csv_spec and
+   read_csv_buf are read_rows on the scanned rows): a frame that ReadCSV returns never holds an undeclared value in
+   a column typed enum with declared values — its table IS the declaration and every non-null cell is declared.
+   Hence a document with any other value in such a column yields no frame (Err). *)
+Theorem C17_csv_read_strict pi pf pb conf rows failed fr h col values :
+  read_rows pi pf pb conf rows failed = Ok fr -> In (h, col) fr ->
+  match assoc h (cf_types conf) with Some s => dtype_of s | None => DNone end = DEnum ->
+  assoc h (cf_enum_vals conf) = Some values -> values <> [] ->
+  exists cs, col = ColEnum values cs /\ forall s, In (Some s) cs -> In s values.
+Proof. exact (csv_read_rows_enum_strict pi pf pb conf rows failed fr h col values). Qed.
+Print Assumptions C17_csv_read_strict.
+
+Example C17_ex_csv_read :
+  let no {A} := fun _ : bytes => @None A in
+  let conf := mkConf false false 44%N [([67%N], ty_enum)] [([67%N], [[98%N]; [97%N]])] 0%Z [] false [] in
+  read_rows no no no conf [[[67%N]]; [[97%N]]; [[98%N]]] false = Ok [([67%N], ColEnum [[98%N]; [97%N]] [Some [97%N]; Some [98%N]])]
+  /\ read_rows no no no conf [[[67%N]]; [[97%N]]; [[100%N]]] false = Fail.
+Proof. cbv zeta. split; vm_compute; reflexivity. Qed.
+
+(* ====================================================================================================
+   The property in ONE statement, for every duplicate-free declaration (derived case values = [] included) and
+   every data column: construction (never a panic; failure on an undeclared value and beyond 255 distinct
+   strings; otherwise a table of <= 255 duplicate-free values that is the declaration when there is one, every cell
+   read back as itself, null as null), the six comparison filters (declared positions; nulls only for != ;
+   undeclared constant: error when declared, no row / all rows for != when derived) and Sorter.Less on the column
+   (declared positions, nulls first, last with NullLast, Reverse inverting).
+   Not in this statement (separate theorems above): in/like, column against column, ReadCSV, New at frame level,
+   the sorter's output.  NOT proved at all: see the manifest text (duplicate declarations; QFrame.Sort's glue
+   from the frame to the sorter; Filter clauses other than a single positive leaf on enum columns). *)
+Definition C17_full_statement : Prop :=
+  forall (data : list (option bytes)) (values : list bytes), NoDup values ->
+  (enum_new data values = Fail \/ exists d vals strict, enum_new data values = Ok (ECol d vals strict))
+  /\ ((exists b, values <> [] /\ In (Some b) data /\ ~ In b values) -> enum_new data values = Fail)
+  /\ ((exists l, NoDup l /\ 255 < length l /\ forall s, In s l -> In (Some s) data \/ In s values) ->
+      enum_new data values = Fail)
+  /\ forall d vals strict, enum_new data values = Ok (ECol d vals strict) ->
+     length vals <= 255 /\ NoDup vals /\ (exists ext, vals = values ++ ext)
+     /\ (values <> [] -> vals = values /\ strict = true) /\ length d = length data
+     /\ (forall k s, nth_error data k = Some s -> cell_at (ECol d vals strict) k = Ok (CEnum s))
+     /\ (forall mt cmp op s index b,
+           cop_of cmp = Some op -> length index = length b -> Forall (fun p => p < length data) index ->
+           e_filter_builtin mt d vals strict index cmp (RConst (AStr s)) b =
+           match index_of s vals with
+           | Some pc =>
+               Ok (mask_or b (map (fun p =>
+                     match nth p data None with
+                     | None => match op with ONe => true | _ => false end
+                     | Some v => match index_of v vals with
+                                 | Some pv => ord_sat op (Nat.compare pv pc)
+                                 | None => false
+                                 end
+                     end) index))
+           | None => if strict then Fail
+                     else Ok (if match op with ONe => true | _ => false end then map (fun _ => true) b else b)
+           end)
+     /\ (forall rev nl i j, i < length data -> j < length data ->
+           model_lt [(enum_sort_key d, (rev, nl))] i j = enum_lt vals rev nl (nth i data None) (nth j data None)).
+
+Theorem C17_full : C17_full_statement.
+Proof. exact enum_full. Qed.
+Print Assumptions C17_full.
+
+(* null through filters: isnull keeps exactly the null cells, isnotnull exactly the others *)
+Theorem C17_filter_null mt (want_null : bool) data values d vals strict index b :
+  enum_new data values = Ok (ECol d vals strict) -> NoDup values ->
+  length index = length b -> Forall (fun p => p < length data) index ->
+  e_filter_builtin mt d vals strict index (if want_null then bs 6 0x69736e756c6c else bs 9 0x69736e6f746e756c6c) (RConst ANil) b
+  = Ok (mask_or b (map (fun p => match nth p data None with None => want_null | Some _ => negb want_null end) index)).
+Proof. exact (enum_filter_null mt want_null data values d vals strict index b). Qed.
+Print Assumptions C17_filter_null.
+
+(* NewConst (a ConstString in a column listed in Enums): an undeclared constant fails; otherwise every cell reads
+   back as the constant (null as null) *)
+Theorem C17_new_const_strict b n values :
+  values <> [] -> ~ In b values -> enum_new_const (Some b) n values = Fail.
+Proof. exact (enum_new_const_strict b n values). Qed.
+Print Assumptions C17_new_const_strict.
+
+Theorem C17_new_const_decode v n values d vals strict :
+  enum_new_const v n values = Ok (ECol d vals strict) -> length values <= 255 -> NoDup values ->
+  length d = n /\ (exists ext, vals = values ++ ext) /\ (values <> [] -> vals = values)
+  /\ forall k, k < n -> cell_at (ECol d vals strict) k = Ok (CEnum v).
+Proof. exact (enum_new_const_decode v n values d vals strict). Qed.
+Print Assumptions C17_new_const_decode.
+
+Example C17_ex_null_filter_const :
+  e_filter_builtin [] ex_d ex_values true [0; 1; 2; 3; 4] (bs 6 0x69736e756c6c) (RConst ANil) [false; false; false; false; false]
+  = Ok [false; true; false; false; false]
+  /\ enum_new_const (Some [97%N]) 3 ex_values = Ok (ECol [1; 1; 1]%N ex_values true)
+  /\ enum_new_const (Some [100%N]) 3 ex_values = Fail
+  /\ enum_new_const (Some [100%N]) 2 [] = Ok (ECol [0; 0]%N [[100%N]] false).
+Proof. repeat split; vm_compute; reflexivity. Qed.
